@@ -5,6 +5,7 @@
    move / create_collection / collection delete, external deletion of the cache folder, logical clock), tied to
    the code on every run by the differential correspondence of checks/C07.py (black-box results and the
    white-box content of the history and sync-token folders).  Hashes are free constructors.
+   Histories include REPORTs whose token-file write fails ([SyncFail]: _atomic_write leaves no file).
    [run cfg init_state ops] ranges over EVERY history of operations, [cfg] over every configuration
    (cache sub-folder options, max_sync_token_age); nothing is bounded.
 
@@ -102,3 +103,14 @@ Theorem C07_not_refused_while_file_young : forall cfg ops1 c t s m ops2,
   exists st3 t' d', step cfg st2 (Sync c (ATok t)) = (st3, RSync (Delta t' d')).
 Proof. exact not_refused_while_file_young. Qed.
 Print Assumptions C07_not_refused_while_file_young.
+
+(* A REPORT whose write of the new token file fails (ENOSPC ...) leaves the items, the token files and the other
+   collections untouched -- this is what writing through _atomic_write guarantees; [SyncFail] is an ordinary
+   operation of the histories all theorems above quantify over. *)
+Theorem C07_failed_write_harmless : forall cfg ops c a st',
+  let st := run cfg init_state ops in
+  step cfg st (SyncFail c a) = (st', RFail) ->
+  view_of st' c = view_of st c /\ c_toks (getc st' c) = c_toks (getc st c) /\
+  forall c', c' <> c -> getc st' c' = getc st c'.
+Proof. exact failed_write_harmless. Qed.
+Print Assumptions C07_failed_write_harmless.
